@@ -74,7 +74,7 @@ func main() {
 			// one blob wanted by many goroutines of the copy at the same instant
 			c.Shape.DupLayer, c.Shape.DupTimes = true, 3+rng.Intn(6)
 			c.Shape.Share = true
-			if c.Pre == "complete" || c.Pre == "tagged-incomplete" {
+			if c.Pre == "complete" || c.Pre == "tagged-incomplete" || c.Pre == "tagged-manifest-gone" {
 				c.Pre = "empty"
 			}
 		}
@@ -232,7 +232,7 @@ func judge(run *ev.Run, r *copyeng.Result, preFP string) bool {
 			run.Violation("blob-uploaded-twice/"+c.Pair, fmt.Sprintf("blob %s (referenced %d times) was committed %d times at the target", d, k, commits[d]), w(nil))
 		}
 	}
-	if shared && c.Pair != "same-repo" && c.Pre != "complete" && c.Pre != "tagged-incomplete" {
+	if shared && c.Pair != "same-repo" && c.Pre != "complete" && c.Pre != "tagged-incomplete" && c.Pre != "tagged-manifest-gone" {
 		run.Count("clause_shared_blob_cases", 1)
 		applicable = true
 	}
